@@ -1,6 +1,7 @@
 INIT Init
 NEXT Next
 CONSTANT Prop = "C23"
+CONSTANT NCorner = 1
 CONSTANT NRandom = 10
 INVARIANT CorrKeysExist
 INVARIANT CorrBusTotal
